@@ -133,6 +133,67 @@ fn main() {
             let ctx = make_ctx("C09", args.get(2).map(|s| s.as_str()).unwrap_or("quick"));
             std::process::exit(props::procs::c09_child(&ctx));
         }
+        "towers-info" => {
+            // development aid: pfverif towers-info <n> [<protocol>] - stage 1 counts and per-shape cost at height n
+            let ctx = make_ctx("C09", "quick");
+            let n: usize = args.get(2).and_then(|s| s.parse().ok()).unwrap_or(2000);
+            let mut st = pfv::runner::Stats::default();
+            for p in 0u8..=5 {
+                if args.get(3).and_then(|s| s.parse::<u8>().ok()).map_or(false, |q| q != p) {
+                    continue;
+                }
+                let t0 = std::time::Instant::now();
+                match props::towers::discover(p, &mut st) {
+                    Err((tw, f)) => println!("P{} stage 1 failure {} {}", p, tw.brief(), f.msg),
+                    Ok(k) => {
+                        println!("P{} kept {} in {:?}", p, k.len(), t0.elapsed());
+                        let cnt = |f: &dyn Fn(&props::towers::Kept) -> bool| k.iter().filter(|x| f(x)).count();
+                        println!(
+                            "  builders {} open/close {} growers {} inert {}",
+                            cnt(&|x| x.tower.b.is_empty() && x.growth == 0 && x.bytes_per_rep >= 8),
+                            cnt(&|x| !x.tower.b.is_empty()),
+                            cnt(&|x| x.tower.b.is_empty() && x.growth > 0),
+                            cnt(&|x| x.tower.b.is_empty() && x.growth == 0 && x.bytes_per_rep < 8)
+                        );
+                        for x in k.iter().filter(|x| x.tower.b.is_empty() && x.growth == 0 && x.bytes_per_rep >= 8).take(400) {
+                            println!("    builder {} bytes/rep={}", x.tower.brief(), x.bytes_per_rep);
+                        }
+                        for x in k.iter().filter(|x| !x.tower.b.is_empty()).take(400) {
+                            println!("    openclose {} bytes/rep={}", x.tower.brief(), x.bytes_per_rep);
+                        }
+                        let mut costs: Vec<(u128, String, bool)> = std::thread::Builder::new()
+                            .stack_size(1 << 30)
+                            .spawn(move || {
+                                k.iter()
+                                    .map(|k| {
+                                        let tw = k.tower.scaled(n);
+                                        let t1 = std::time::Instant::now();
+                                        let r = props::towers::run_tower(&tw, false);
+                                        (t1.elapsed().as_millis(), format!("{} growth={} bytes/rep={}", tw.brief(), k.growth, k.bytes_per_rep), r.followed)
+                                    })
+                                    .collect()
+                            })
+                            .unwrap()
+                            .join()
+                            .unwrap();
+                        costs.sort();
+                        let total: u128 = costs.iter().map(|c| c.0).sum();
+                        println!("  total {} ms at n={}; slowest:", total, n);
+                        for c in costs.iter().rev().take(12) {
+                            println!("   {:6} ms followed={} {}", c.0, c.2, c.1);
+                        }
+                    }
+                }
+            }
+            let _ = ctx;
+            std::process::exit(0);
+        }
+        "c09-towers" => {
+            // pfverif c09-towers <file> [<index>]
+            let ctx = make_ctx("C09", "quick");
+            let only = args.get(3).and_then(|s| s.parse().ok());
+            std::process::exit(props::towers::towers_child(&ctx, &args[2], only));
+        }
         "c09-one" => {
             let ctx = make_ctx("C09", "quick");
             std::process::exit(props::procs::c09_one(&ctx, &args[2]));
